@@ -95,7 +95,8 @@ func replayOther(res *Result, rf replayFile, text string) {
 				return
 			}
 		}
-	case "meaning_differs", "layout_changes_output", "irrelevant_binding_changes_output":
+	case "meaning_differs", "layout_changes_output", "irrelevant_binding_changes_output", "result_differs",
+		"statement_unreadable", "statement_precedence-dependent", "statement_malformed":
 		// decided by TLC on the recorded SQL; reproduced when the code still emits that SQL
 		var sql string
 		var cerr error
@@ -116,6 +117,15 @@ func replayOther(res *Result, rf replayFile, text string) {
 		guarded(text, "Compile", func() { sql, cerr = pql.Compile(text) })
 		if cerr == nil {
 			if msg := lexableSQL(lexSQL(sql, "std")); msg != "" {
+				res.violate(Violation{Property: rf.Property, Kind: v.Kind, Reason: msg})
+			}
+		}
+	case "statement_shape":
+		var sql string
+		var cerr error
+		guarded(text, "Compile", func() { sql, cerr = pql.Compile(text) })
+		if cerr == nil {
+			if msg := statementShape(sql, lexSQL(sql, "std")); msg != "" {
 				res.violate(Violation{Property: rf.Property, Kind: v.Kind, Reason: msg})
 			}
 		}
